@@ -56,7 +56,8 @@ SYNTACTIC = []
 for t in SEEDED:
     SYNTACTIC.append(Syn(t, ["C17"], (lambda t=t: F.seed_threading(t)), "seed threading / no global RNG"))
 for t in PURE:
-    SYNTACTIC.append(Syn(t, ["C13"], (lambda t=t: F.purity(t)), "purity of an lru_cache'd function"))
+    props = ["C13"] + (["C11"] if t.startswith("cotengra.contract:") else []) + (["C12"] if t in ("cotengra.utils:parse_equation_ellipses", "cotengra.utils:get_symbol") else [])
+    SYNTACTIC.append(Syn(t, props, (lambda t=t: F.purity(t)), "purity of an lru_cache'd function"))
 SYNTACTIC += [
     Syn("cotengra.interface:hash_contraction", ["C13"], lambda: F.key_covers_parameters("cotengra.interface:hash_contraction"),
         "cache key injective in every component"),
